@@ -162,6 +162,18 @@ def _gen_masks(rng, tier, exhaustive_quick, exhaustive_thorough, n_random_quick,
 
 
 def _gen_blur(rng, tier):
+    # 0. large kernels: footprints with 255 / 256 / 257 / 288 unmasked pixels around one masked pixel (a count held in 8 bits wraps at
+    #    256), and a 33 x 9 kernel; the statement has no bound on the kernel size
+    for n_unmasked in (256, 255, 257, 288):
+        m = np.ones((41, 41), dtype=bool)
+        cells = [(y, x) for y in range(12, 29) for x in range(12, 29) if (y, x) != (20, 20)]
+        for (y, x) in cells[:n_unmasked]:
+            m[y, x] = False
+        yield {"mask": m, "ky": 17, "kx": 17}
+    big = np.ones((45, 21), dtype=bool)
+    big[18:27, 6:15] = False
+    big[22, 10] = True
+    yield {"mask": big, "ky": 33, "kx": 9}
     # 1. hand-picked topologies with every kernel
     for m in _special_masks():
         for ky in _KS:
